@@ -73,7 +73,8 @@ fn bisect_find_sha(
         if start > end {
             break;
         }
-        let i = (start + end) / 2;
+        // start + end can overflow an i32 for indexes above 2^30
+        let i = start + (end - start) / 2;
 
         let file_sha = unpack_name.call1(py, (i,))?;
         if !py_is_sha(&file_sha, py)? {
